@@ -159,6 +159,15 @@ def c30_features(c):
     for i in QIDS:
         if ("c1", i) in fmap and ("*", i) in fmap and fmap[("c1", i)] != fmap[("*", i)]:
             f.add("client-entry-shadows-star")
+    # (sampling aid only, never used for a verdict) the effective map, to make sure the sample contains
+    # configurations in which a "*" id is overridden for c1 and c1 has no id of its own for that name
+    eff = dict(fmap)
+    for x in o:
+        eff[(key(x), x["id"])] = x["n"]
+    own = {n for (k, i), n in eff.items() if k == "c1"}
+    for i in QIDS:
+        if ("c1", i) in eff and ("*", i) in eff and eff[("c1", i)] != eff[("*", i)] and eff[("*", i)] not in own:
+            f.add("lookup-by-name-must-skip-shadowed-star-id")
     if c["hasfile"] and not o:
         f.add("file-only")
     if not c["hasfile"] and o:
@@ -260,7 +269,7 @@ def run_c30(tier, replay):
         cases, total, tlc_runs = c30_cases(tier)
     bins = {t: vlib.build_cmd("./cmd/" + t, t) for t in TOOLS}
     drv = vlib.build_driver("clidrv")
-    budget = 100 if tier == "quick" else 1050
+    budget = 400 if tier == "quick" else 1050   # hard bound only; idle: quick ~10 s, thorough ~6 min
     lines, bad = drive_cli(drv, bins, [strip_case(c) for c in cases], budget, "c30",
                            soft=0 if tier == "quick" else 840)
     skipped = len(cases) - len(lines) - len(bad)
@@ -338,7 +347,7 @@ def run_c31(tier, replay):
     drv = vlib.build_driver("clidrv")
     lines, bad = [], []
     if cases:
-        lines, bad = drive_cli(drv, bins, [strip_case(c) for c in cases], 100 if tier == "quick" else 600, "c31")
+        lines, bad = drive_cli(drv, bins, [strip_case(c) for c in cases], 400 if tier == "quick" else 900, "c31")
     liblines = []
     if libcases:
         prog = os.path.join(vlib.scratch(), "lib-progress")
